@@ -104,3 +104,45 @@ def explain_enum_values() -> str:
 
 EXPLAIN = {'enum_values_closed': explain_enum_values}
 CLASSIFIERS: dict = {}
+
+
+# ---------------------------------------------------------------- two modules with same-named enums in one run
+def _mode_source(a: str, b: str, c: str) -> str:
+	return f'from enum import Enum\n\nclass Mode(Enum):\n\tFast = {a}\n\tSlow = {b}\n\tName = {c}\n\ndef f() -> int:\n\treturn Mode.Fast.value\n\ndef g() -> float:\n\treturn Mode.Slow.value\n\ndef h() -> str:\n\treturn Mode.Name.value\n'
+
+
+TWO_MODULES = [
+	{'c17.disk': _mode_source('1 << 4', '7 / 2 - 0.5', '"disk-" + "4"'), 'c17.net': _mode_source('1 << 8', '9 / 2', '"net-" + "2"')},
+	{'c17.disk': _mode_source('3', '1.5', '"a"'), 'c17.net': _mode_source('3 + 1', '1.5 * 2', '"a" + "b"')},
+]
+TWO_NOTES: list = []
+
+
+def enum_two_modules_closed() -> bool:
+	"""one run (one application, one transpiler object) over two modules that declare a same-named enum with different member
+	values: the literal emitted for `Mode.<member>.value` in each module is the value CPython computes for that module, in both
+	transpile orders"""
+	import re
+	from tv import driver
+	from rogw.tranp.module.modules import Modules
+	from rogw.tranp.transpiler.types import ITranspiler
+	del TWO_NOTES[:]
+	for program in TWO_MODULES:
+		for order in (sorted(program), sorted(program, reverse=True)):
+			app = driver.make_app(program, sorted(program))
+			modules, transpiler = app.resolve(Modules), app.resolve(ITranspiler)
+			for m in order:
+				cover('module')
+				text = transpiler.transpile(modules.load(m).entrypoint)
+				ns: dict = {}
+				exec(program[m], ns)  # noqa: S102  the fixed sources above
+				for fn in ('f', 'g', 'h'):
+					found = re.search(r'\b' + fn + r'\(\) \{\n\treturn (.*);\n\}', text)
+					want = ns[fn]()
+					got = eval(found.group(1)) if found else '<not emitted>'  # noqa: S307  a numeric / string literal
+					if type(got) is not type(want) or got != want:
+						TWO_NOTES.append(f'modules transpiled in the order {order}: {m}.{fn}() returns the literal {found.group(1) if found else None!r}, CPython {want!r}')
+	return ok(not TWO_NOTES)
+
+
+EXPLAIN['enum_two_modules_closed'] = lambda: ' ; '.join(TWO_NOTES[:3])
